@@ -32,6 +32,29 @@ def g_backoff(entries):
     return gL(out)
 
 
+def faults_from_calls(step):
+    """the faults of a step as the calls experienced them (per-op faults and the case-wide fault)"""
+    f = dict(step["op"].get("faults") or {})
+    for c in step.get("calls") or []:
+        if not c.get("failed"):
+            continue
+        if c["kind"] == "Pod" and c["verb"] == "create":
+            f["create_nodes"] = list(f.get("create_nodes") or []) + [c.get("node", "")]
+        elif c["kind"] == "Pod" and c["verb"] == "delete":
+            f["delete_pods"] = list(f.get("delete_pods") or []) + [c["name"]]
+        elif c["kind"] == "Pod" and c["verb"] == "patch":
+            f["patch_pods"] = list(f.get("patch_pods") or []) + [c["name"]]
+        elif c["verb"] == "status_update":
+            f["status"] = True
+        elif c["kind"] == "ExtendedDaemonSet" and c["verb"] in ("update", "patch"):
+            f["update"] = True
+        elif c["kind"] == "ExtendedDaemonSetReplicaSet" and c["verb"] == "delete":
+            f["rs_delete"] = list(f.get("rs_delete") or []) + [c["name"]]
+        elif c["kind"] == "ExtendedDaemonSetReplicaSet" and c["verb"] == "create":
+            f["rs_create"] = True
+    return f
+
+
 def encode_ers(step, options):
     """-> (literal, info) or None when the step is outside the model (replica set not found)."""
     pre, op = step["pre"], step["op"]
@@ -51,7 +74,7 @@ def encode_ers(step, options):
         if d is not None:
             ods = find(pre, "DaemonSet", op["ns"], d)
     sn = gC("MkErsSnap", gZ(step["now"]), P.g_ers(rs), gO(e, P.g_eds), gL(nodes), gL(pods), gL(sets), gO(ods, P.g_daemonset),
-            g_backoff(step.get("backoff_pre")), gB(bool(options.get("affinity"))), g_faults(op.get("faults")))
+            g_backoff(step.get("backoff_pre")), gB(bool(options.get("affinity"))), g_faults(faults_from_calls(step)))
     creates, deletes, adds, dels, status = [], [], [], [], None
     for c in step["calls"]:
         if c["kind"] == "Pod":
@@ -81,7 +104,7 @@ def encode_eds(step, options):
     pre, op = step["pre"], step["op"]
     e = find(pre, "ExtendedDaemonSet", op["ns"], op["name"])
     nodes = [P.g_node(n, op["ns"], op["name"], []) for n in by_kind(pre, "Node")]
-    f = op.get("faults") or {}
+    f = faults_from_calls(step)
     mode = {"": "VAuto", None: "VAuto", "auto": "VAuto", "manual": "VManual"}.get(options.get("default_mode"), "VOtherMode")
     sn = gC("MkEdsSnap", gZ(step["now"]), gO(e, P.g_eds), gL([P.g_ers(r) for r in by_kind(pre, "ExtendedDaemonSetReplicaSet")]),
             gL(nodes), gL([P.g_pod(p) for p in by_kind(pre, "Pod")]), mode, gB(bool(f.get("status"))), gB(bool(f.get("update"))),
